@@ -86,7 +86,19 @@ def run(ctx):
     rets = [r for r in ex.function(eref) if r.kind == "return"]
     terms = sorted(P.show(r.term, maxdepth=3) for r in rets)
     ok = len(rets) == 2 and any(r.term == ("call", "ural.lru.serialization.unserialize_lru", (("param", "lru"),), ()) for r in rets) and any(r.term == ("param", "lru") for r in rets)
-    ctx.ob("R1", "ensure_lru_stems/unserialises-strings", ok, "ensure_lru_stems does not return unserialize_lru(lru) for strings and lru itself otherwise: %s" % terms, tr.site(eref.node))
+
+    def ensure_cells():
+        from ..microeval import Raised
+        out = []
+        for arg, want in (("s:http|h:com|h:a|p:x|", ["s:http", "h:com", "h:a", "p:x"]), (["s:http", "h:com"], ["s:http", "h:com"]), ([], [])):
+            try:
+                got = run_function(repo, eref, [arg])
+                got = list(got) if not isinstance(got, str) else got
+            except Raised as e:
+                got = "raises " + e.name
+            out.append(("ensure_lru_stems(%r) -> %r" % (arg, got), got == want))
+        return out
+    ctx.ob("R1", "ensure_lru_stems/unserialises-strings", ok, "ensure_lru_stems does not return unserialize_lru(lru) for strings and lru itself otherwise: %s" % terms, tr.site(eref.node), cells=ensure_cells)
 
     ctx.rule("R2", "variants: each *LRUTrie subclass overrides only tokenize, calls its own stems function with suffix_aware=self.suffix_aware and **self.kwargs; the base tokenize uses lru_stems; __len__ / __iter__ delegate to the TrieDict; the constructor stores suffix_aware and kwargs")
     variants = {"LRUTrie": "ural.lru.stems.lru_stems", "CanonicalizedLRUTrie": "ural.lru.stems.canonicalized_lru_stems", "NormalizedLRUTrie": "ural.lru.stems.normalized_lru_stems", "FingerprintedLRUTrie": "ural.lru.stems.fingerprinted_lru_stems"}
